@@ -269,6 +269,9 @@ def eval_case(task):
     v = np.array(task["re"]) + 1j * np.array(task["im"])
     n = task["n"]
     out = {"key": task["key"]}
+    if task.get("rsvd_seed") is not None:
+        import qclib.entanglement as _ent     # randomized_svd draws from a module-level unseeded generator
+        _ent._rng = np.random.default_rng(task["rsvd_seed"])
     entry = task.get("entry")
     if entry:
         # the documented static entry point: append to a caller's circuit (all wires / an explicit wire list)
@@ -389,7 +392,7 @@ def record(ctx, task, res):
     nz = int(np.sum(np.abs(v) > 0))
     rep = {"cls": task["cls"], "opts": task["opts"], "n": task["n"], "family": task["family"],
            "re": task["re"], "im": task["im"], "upto_phase": task["upto_phase"], "key": task["key"],
-           "label": task.get("label"), "entry": task.get("entry"),
+           "label": task.get("label"), "entry": task.get("entry"), "rsvd_seed": task.get("rsvd_seed"),
            "call": (f"{task['cls']}.initialize(QuantumCircuit({task['entry']['width']}), v, qubits={task['entry']['qubits']}, "
                     f"opt_params={task['opts']})" if task.get("entry") else
                     f"Statevector({task['cls']}(v, opt_params={task['opts']}, label={task.get('label')!r}).definition)")}
@@ -404,7 +407,12 @@ def record(ctx, task, res):
         ctx.fail(f"dense-a2-precision:{task['cls']}:{optkey(task['opts'])}:n={task['n']}", f"{task['key']}: " + res["detail"],
                  dict(rep, observed_err=res.get("err"), err_without_a2=res.get("err_without_a2")))
     elif res["status"] == "raises":
-        ctx.fail(task["key"] + ":raises", res["detail"], rep)
+        ctx.fail(task["key"] + ("" if task.get("fixed_key") else ":raises"), res["detail"], rep)
+    elif task.get("allclose_probe") and res.get("err", 1.0) <= 1e-5:
+        ctx.count("allclose-merge")
+        ctx.fail(task["key"], res["detail"] + " -- two sibling multiplexer blocks 3e-6 apart are merged by np.allclose (rtol 1e-5) in "
+                 "qiskit's UCGate._simplify / ucge._repetition_search; 3e-5 apart (cases `allclose:delta=3e-05`) the state is exact",
+                 dict(rep, observed_err=res.get("err"), allclose_probe=True))
     else:
         ctx.fail(task["key"], res["detail"], dict(rep, observed_err=res.get("err")))
 
@@ -727,10 +735,171 @@ def gen_branch_tasks(ctx):
     return tasks
 
 
+# ------------------------------------------------------------------------------------------------
+# boundary values of the anchored sources: inputs AT and next to the thresholds (tie and oracle)
+#   ucr.py:48       abs(angle) > 1e-8   (every leaf of the multiplexer recursion)
+#   ucg.py:185,188  amplitude != 0      (exact zero vs tiny non-zero)
+#   ucge.py / qiskit UCGate._simplify   np.allclose(block_i, block_0)  (rtol 1e-5, atol 1e-8)
+#   entanglement.py _effective_rank 1e-7; schmidt_decomposition svd='auto' switch (n = 13/14/15, lr = 1)
+# ------------------------------------------------------------------------------------------------
+
+ALLCLOSE_KEY = "dense-allclose-merge"
+
+
+def _cunit(x):
+    x = np.asarray(x, dtype=complex)
+    return x / np.linalg.norm(x)
+
+
+def angle_threshold_vectors():
+    """(name, vector): a rotation angle (n = 1) or a multiplexed angle combination (n = 2, 3) of size t for t a factor 3 below
+    the 1e-8 cut of ucr (gate skipped; the state is off by t/2), a factor 3 above it (gate present) and at 1e-6, where a skipped
+    gate would be visible to the Statevector comparison as well."""
+    out = []
+    for t in (3e-9, 3e-8, 1e-6):
+        out.append((f"ry-angle={t:g}", np.array([math.cos(t / 2), math.sin(t / 2)], dtype=complex)))
+        out.append((f"rz-angle={t:g}", np.array([1.0, np.exp(1j * t)], dtype=complex) / math.sqrt(2)))
+        a = 0.9
+        # two-angle multiplexer (a, a + 2t): combinations (a + t, -t)
+        out.append((f"mux2-ry-diff={t:g}", _cunit(np.concatenate([0.6 * np.array([math.cos(a / 2), math.sin(a / 2)]),
+                                                                  0.8 * np.array([math.cos(a / 2 + t), math.sin(a / 2 + t)])]))))
+        out.append((f"mux2-rz-diff={t:g}", _cunit(np.concatenate([0.6 * np.array([1.0, np.exp(0.7j)]),
+                                                                  0.8 * np.array([1.0, np.exp(1j * (0.7 + 2 * t))])]))))
+        # four-angle multiplexer, one angle 4t off: every non-constant combination is +-t
+        blocks = [np.array([math.cos(a / 2), math.sin(a / 2)])] * 3 + [np.array([math.cos(a / 2 + 2 * t), math.sin(a / 2 + 2 * t)])]
+        out.append((f"mux4-ry-diff={t:g}", _cunit(np.concatenate([w * b for w, b in zip((0.4, 0.5, 0.6, 0.48), blocks)]))))
+    return out
+
+
+def tiny_vectors(r, n, tiny):
+    """Generic vector with (a) one amplitude, (b) one aligned sibling pair and (c), n >= 3, one aligned block of four scaled to
+    `tiny`: non-zero but far below the other amplitudes (the code's tests are exact `!= 0` / `mag != 0.0`)."""
+    dim = 2 ** n
+    out = []
+    base = make_vector(r, n, "complex")
+    for name, idx in (("one", [int(r.integers(dim))]), ("pair", [2 * int(r.integers(dim // 2)) + b for b in (0, 1)]),
+                      ("quad", [4 * int(r.integers(max(1, dim // 4))) + b for b in range(4)] if n >= 3 else None)):
+        if idx is None:
+            continue
+        v = base.copy()
+        v[idx] = v[idx] * tiny
+        out.append((f"tiny={tiny:g}:{name}", _clean(v)))
+    return out
+
+
+def allclose_vectors(delta, n):
+    """Two sibling multiplexer blocks a relative `delta` apart: f1 = unit([0.6, 0.8 (1 + delta)]) next to f0 = [0.6, 0.8]."""
+    f0 = _cunit([0.6, 0.8])
+    f1 = _cunit([0.6, 0.8 * (1 + delta)])
+    v = _cunit(np.concatenate([0.6 * f0, 0.8 * f1]))
+    if n == 3:
+        v = _cunit(np.kron(v, _cunit([1, 1j])))
+    return v
+
+
+def atol_vectors(d):
+    """Blocks identity-like vs off by an absolute d in a zero entry (np.allclose atol = 1e-8)."""
+    return _cunit(np.concatenate([0.6 * np.array([1.0, 0.0]), 0.8 * _cunit([1.0, d])]))
+
+
+def run_tie_boundaries(ctx):
+    for name, v in angle_threshold_vectors():
+        for gp in (None, False):
+            tie_topdown(ctx, _clean(v), gp, "angle-threshold")
+        ctx.count("boundary:tie:ucr-angle-vs-1e-8:" + name.split("=")[1])
+    r = ctx.nprng()
+    for n in (2, 3):
+        for tiny in (1e-12, 3e-9):
+            for name, v in tiny_vectors(r, n, tiny):
+                tie_topdown(ctx, v, None, "tiny")
+                ctx.count("boundary:tie:amplitude-tiny-nonzero")
+
+
+def gen_boundary_tasks(ctx):
+    r = ctx.nprng()
+    tasks = []
+    # (1) rotation angles around the 1e-8 cut of ucr
+    for name, v in angle_threshold_vectors():
+        n = int(round(math.log2(len(v))))
+        for opts in (None, {"lib": "qiskit"}):
+            tasks.append(make_task("TopDownInitialize", opts, n, "angle-threshold", name, _clean(v)))
+        ctx.count("boundary:ucr-angle-vs-1e-8:" + name.split("=")[1])
+    # (2) amplitudes tiny but not zero
+    for n in (2, 3, 4):
+        for tiny in (1e-12, 3e-9):
+            for name, v in tiny_vectors(r, n, tiny):
+                classes = [("TopDownInitialize", None), ("UCGInitialize", None), ("UCGEInitialize", None),
+                           ("IsometryInitialize", {"scheme": "ccd"})]
+                if tiny == 1e-12:      # Schmidt-based classes: keep coefficients out of the (1e-9, 1e-5) band
+                    classes += [("LowRankInitialize", None), ("SVDInitialize", None), ("BaaLowRankInitialize", None),
+                                ("IsometryInitialize", {"scheme": "knill"}), ("IsometryInitialize", {"scheme": "csd"})]
+                for cls, opts in classes:
+                    tasks.append(make_task(cls, opts, n, "tiny", name, v))
+                ctx.count(f"boundary:amplitude-tiny-nonzero:{tiny:g}")
+    # (3) sibling multiplexer blocks next to the np.allclose merge (UCGate._simplify / ucge._repetition_search)
+    mux_classes = [("UCGInitialize", None), ("UCGEInitialize", None), ("IsometryInitialize", {"scheme": "ccd"})]
+    for n in (2, 3):
+        for delta, side in ((3e-9, "inside(negligible)"), (3e-5, "outside(rtol x3)")):
+            for cls, opts in mux_classes:
+                tasks.append(make_task(cls, opts, n, "allclose", f"delta={delta:g}", allclose_vectors(delta, n)))
+            ctx.count("boundary:allclose-rtol:" + side)
+        for cls, opts in mux_classes:
+            # inside the tolerance and visible: the known merge (one key per class and size)
+            t = make_task(cls, opts, n, "allclose", "delta=3e-6", allclose_vectors(3e-6, n))
+            t["key"] = f"{ALLCLOSE_KEY}:{cls}:{optkey(opts)}:n={n}:delta=3e-6"
+            t["allclose_probe"] = True
+            tasks.append(t)
+        ctx.count("boundary:allclose-rtol:inside(finding-probe)")
+    for d, side in ((3e-9, "below-atol"), (3e-8, "above-atol"), (1e-6, "above-atol-x100")):
+        for cls, opts in mux_classes:
+            tasks.append(make_task(cls, opts, 2, "allclose-atol", f"d={d:g}", atol_vectors(d)))
+        ctx.count("boundary:allclose-atol:" + side)
+    # (3b) a sibling pair of amplitudes whose SQUARES are subnormal (4e-162, 2e-162): the pair's norm (ucg.py:141, isometry.py
+    #      Lemma 2) is then computed from a few subnormal quanta.  Fixed literals; one key per class and size, ok when right.
+    sub = {2: np.array([1.0, 0.0, 4e-162, 2e-162], dtype=complex),
+           3: np.array([0.6, 0, 0, 0.8j, 0, 0, 3e-162j, -4e-162], dtype=complex)}
+    for n, v in sub.items():
+        for cls, opts in mux_classes + [("TopDownInitialize", None), ("LowRankInitialize", None), ("IsometryInitialize", {"scheme": "csd"})]:
+            t = make_task(cls, opts, n, "subnormal-pair", 0, v)
+            t["key"] = f"dense-subnormal-pair:{cls}:{optkey(opts)}:n={n}"
+            t["fixed_key"] = True
+            tasks.append(t)
+        ctx.count("boundary:amplitude-pair-with-subnormal-squares")
+    # (4) one Schmidt coefficient a factor 3 below the 1e-7 rank cut (dropped: error <= 3.3e-8)
+    for n, part in ((3, [0, 1]), (4, [0, 1])):
+        k = len(part)
+        u = _haar_cols(r, 2 ** (n - k), 2)
+        w = _haar_cols(r, 2 ** k, 2)
+        v = _clean(ref_undo(n, (u * np.array([1.0, 3.3e-8])) @ w.T, part))
+        for cls, opts in (("LowRankInitialize", None), ("SVDInitialize", None), ("BaaLowRankInitialize", None),
+                          ("LowRankInitialize", {"partition": part, "iso_scheme": "knill", "unitary_scheme": "csd"})):
+            tasks.append(make_task(cls, opts, n, "sv-cut-below", "3.3e-8", v))
+        ctx.count("boundary:schmidt-coefficient-vs-1e-7:below(3.3e-8)")
+    # (5) svd='auto' switch of schmidt_decomposition (lr == 1 and n >= 14 and partition above round(n/2.5)): product states
+    #     across the default partition keep lr = 1 exact and the circuit cheap (two states of <= 8 qubits)
+    for n, opts in ((13, {"lr": 1}), (14, {"lr": 1}), (15, {"lr": 1}), (14, {"lr": 1, "svd": "regular"}),
+                    (14, {"lr": 1, "partition": list(range(6))})):
+        part = opts.get("partition") or default_partition(n)
+        k = len(part)
+        v = _clean(np.kron(_haar_cols(r, 2 ** k, 1)[:, 0], _haar_cols(r, 2 ** (n - k), 1)[:, 0]))   # partition = leading qubits
+        t = make_task("LowRankInitialize", opts, n, "product-across", 0, v)
+        t["rsvd_seed"] = ctx.rng.randrange(2 ** 31)
+        tasks.append(t)
+        ctx.count(f"boundary:svd-switch:n={n}:len={k}:{opts.get('svd', 'auto')}")
+    return tasks
+
+
 def run_oracle(ctx, nmax=None):
     nmax = nmax or (6 if ctx.quick else 8)
-    tasks = gen_tasks(ctx, nmax) + gen_branch_tasks(ctx) + probe_unsorted(ctx) + probe_a2(ctx)
+    tasks = gen_tasks(ctx, nmax) + gen_branch_tasks(ctx) + gen_boundary_tasks(ctx) + probe_unsorted(ctx) + probe_a2(ctx)
     run_tasks(ctx, tasks)
+    ctx.notes.append("boundary cases (gen_boundary_tasks / run_tie_boundaries): rotation and multiplexed-angle combinations of 3e-9 / 3e-8 / "
+                     "1e-6 around ucr's 1e-8 cut (tie of the gate list at all three, Statevector sensitive from 1e-6), amplitudes tiny but "
+                     "non-zero (1e-12 all classes, 3e-9 for the classes without a Schmidt step), sibling multiplexer blocks a relative "
+                     "3e-9 / 3e-5 apart and 3e-9 / 3e-8 / 1e-6 apart in a zero entry (either side of np.allclose's rtol 1e-5 / atol 1e-8 in "
+                     "qiskit's UCGate._simplify and ucge._repetition_search); 3e-6 apart is the known merge, probed under "
+                     f"{ALLCLOSE_KEY}:<Class>:<options>:n=<n>:delta=3e-6; one Schmidt coefficient at 3.3e-8; n = 13 / 14 / 15 with lr = 1 on "
+                     "product states around the randomized-SVD switch")
     ctx.notes.append("UCGEInitialize with preserve_previous=True is NOT exercised (outside C01's option list; C12 states "
                      "'preserve' for the plain variant only). Observed on the unchanged tree: it prepares a wrong state whenever "
                      "_simplify drops a control, e.g. v = kron([0.6,0.8],[1,1j]/sqrt(2)), opt_params={'target_state':0,"
@@ -1273,6 +1442,7 @@ def run_tie_plesch(ctx, nmax=5):
 
 def run(ctx):
     run_tie_topdown(ctx)
+    run_tie_boundaries(ctx)
     run_tie_plesch(ctx, nmax=5 if ctx.quick else 6)
     run_oracle(ctx)
 
@@ -1310,4 +1480,8 @@ def replay(ctx, payload):
     t = make_task(rp["cls"], rp["opts"], rp["n"], rp.get("family", "replay"), 0, v, upto_phase=rp.get("upto_phase", False),
                   label=rp.get("label"), entry=rp.get("entry"))
     t["key"] = rp.get("key", t["key"])
+    if rp.get("allclose_probe"):
+        t["allclose_probe"] = True
+    if rp.get("rsvd_seed") is not None:
+        t["rsvd_seed"] = rp["rsvd_seed"]
     record(ctx, t, eval_case(t))
